@@ -53,6 +53,9 @@ NNext ==
     \/ \E v \in 0..2, kind \in PostKinds : \E r \in RandVarns(v) : PostIt(kind, r)
     \/ \E named \in SUBSET Labels : named # {} /\ Wait(named, "NC_NOERR") /\ tk' = tk
     \/ \E q \in Labels : Cancel({q}, "NC_NOERR") /\ tk' = tk
+    \* cancel by kind (NC_GET_REQ_ALL / NC_PUT_REQ_ALL): all pending reads or all pending writes, possibly none at all
+    \/ Cancel({Q[i].lab : i \in {j \in 1..Len(Q) : Q[j].kind = "iget"}}, "NC_NOERR") /\ tk' = tk
+    \/ Cancel({Q[i].lab : i \in {j \in 1..Len(Q) : Q[j].kind # "iget"}}, "NC_NOERR") /\ tk' = tk
     \/ \E v \in 0..(NV - 1) : \E r \in RandReqs(v) :
           /\ NoDup(r) /\ ToSet(Elems(r)) \cap PendingElems(v, {"iput", "bput"}) = {}
           /\ BPut(r, Toks(r), ReqErr(r, FALSE)) /\ tk' = tk + 1
